@@ -102,6 +102,7 @@ def handle (op : String) (args : List String) : Option String :=
       let (bs, s') := Halton.drawMany (Halton.rPoint Float.ofNat (fun x => x - Float.floor x) start alphas) 0 idx sizes
       pure (" | ".intercalate (bs.map (fun b => joinSp (b.map fl))) ++ s!" | cursor {s'}")
   | "cal.run" => Drv.Cal.handle args
+  | "rl.run" => Drv.RL.handle args
   | "ckpt.saves" => do
       let snaps ← run (list (do
         let p ← nat; let rows ← list nat; let ser ← list nat
